@@ -586,6 +586,264 @@ theorem writer_satisfies_siddFound (extras : List DesKind) (n m : Nat) :
     siddFound (extras ++ List.replicate (n + 1) .siddXml ++ List.replicate m .sicdXml) = true := by
   simp [siddFound, List.replicate_succ]
 
+/-! ## histories of `check()` calls on one checker object -/
+
+section History
+variable {α σ : Type} [DecidableEq α]
+
+theorem lookup_storeSet_self {ρ : Type} (st : List (α × ρ)) (k : α) (v : ρ) : (storeSet st k v).lookup k = some v := by
+  induction st with
+  | nil => simp [storeSet, List.lookup]
+  | cons p r ih =>
+    obtain ⟨k', v'⟩ := p
+    by_cases h : k' = k
+    · subst h; simp [storeSet, List.lookup]
+    · have h' : (k == k') = false := by simp [Ne.symm h]
+      simp [storeSet, h, List.lookup, h', ih]
+
+theorem lookup_storeSet_other {ρ : Type} (st : List (α × ρ)) (k k' : α) (v : ρ) (h : k' ≠ k) :
+    (storeSet st k v).lookup k' = st.lookup k' := by
+  induction st with
+  | nil => have : (k' == k) = false := by simp [h]
+           simp [storeSet, List.lookup, this]
+  | cons p r ih =>
+    obtain ⟨k0, v0⟩ := p
+    by_cases h0 : k0 = k
+    · subst h0
+      have : (k' == k0) = false := by simp [h]
+      simp [storeSet, List.lookup, this]
+    · simp only [storeSet, h0, if_false, List.lookup]
+      cases k' == k0 <;> simp [ih]
+
+/-- what a fresh run of the method `n` records on the object state `s` -/
+def freshResult (t : List (α × (σ → List Op))) (s : σ) (n : α) : Option Result :=
+  (t.lookup n).map (fun ops => runCheck (ops s))
+
+theorem lookup_runNamed (t : List (α × (σ → List Op))) (s : σ) (store : List (α × Result)) (name n : α)
+    (hdef : (t.lookup name).isSome) :
+    (runNamed t s store name).lookup n = if n = name then freshResult t s name else store.lookup n := by
+  unfold runNamed freshResult
+  cases ht : t.lookup name with
+  | none => simp [ht] at hdef
+  | some ops =>
+    by_cases h : n = name
+    · subst h; simp [lookup_storeSet_self]
+    · simp [h, lookup_storeSet_other _ _ _ _ h]
+
+/-- after a `check()` call the entry of every selected check is what a fresh run on the current state records; every other
+    entry is what it was -/
+theorem lookup_checkCall (t : List (α × (σ → List Op))) (s : σ) (store : List (α × Result)) (torun : List α) (n : α)
+    (hdef : ∀ m ∈ torun, (t.lookup m).isSome) :
+    (checkCall t s store torun).lookup n = if n ∈ torun then freshResult t s n else store.lookup n := by
+  induction torun generalizing store with
+  | nil => simp [checkCall]
+  | cons a r ih =>
+    have hr : ∀ m ∈ r, (t.lookup m).isSome := fun m hm => hdef m (List.mem_cons_of_mem _ hm)
+    have ha := hdef a List.mem_cons_self
+    show (checkCall t s (runNamed t s store a) r).lookup n = _
+    rw [ih _ hr, lookup_runNamed t s store a n ha]
+    by_cases h1 : n ∈ r
+    · simp [h1]
+    · by_cases h2 : n = a
+      · subst h2; simp [h1]
+      · simp [h1, h2]
+
+/-- **the result of a selected check does not depend on what earlier calls left in the store** -/
+theorem check_independent_of_history (t : List (α × (σ → List Op))) (s : σ) (st st' : List (α × Result)) (torun : List α)
+    (n : α) (hdef : ∀ m ∈ torun, (t.lookup m).isSome) (hn : n ∈ torun) :
+    (checkCall t s st torun).lookup n = (checkCall t s st' torun).lookup n := by
+  rw [lookup_checkCall _ _ _ _ _ hdef, lookup_checkCall _ _ _ _ _ hdef]; simp [hn]
+
+/-- … and the entry of a check the call does not select is the stale one (the store is never cleared) -/
+theorem stale_entry_survives (t : List (α × (σ → List Op))) (s : σ) (st : List (α × Result)) (torun : List α) (n : α)
+    (hdef : ∀ m ∈ torun, (t.lookup m).isSome) (hn : n ∉ torun) :
+    (checkCall t s st torun).lookup n = st.lookup n := by
+  rw [lookup_checkCall _ _ _ _ _ hdef]; simp [hn]
+
+theorem runHistory_append (t : List (α × (σ → List Op))) (st : σ × List (α × Result)) (a b : List (Event α σ)) :
+    runHistory t st (a ++ b) = runHistory t (runHistory t st a) b := by
+  simp [runHistory, List.foldl_append]
+
+/-- **histories**: whatever happened to the checker object before — any number of `check()` calls with any selections, interleaved
+    with any changes of the checked object — the n-th call records, for every check it selects, exactly what a new checker
+    records on the object as it is now -/
+theorem history_then_check_eq_fresh (t : List (α × (σ → List Op))) (s0 : σ) (h : List (Event α σ)) (torun : List α) (n : α)
+    (hdef : ∀ m ∈ torun, (t.lookup m).isSome) (hn : n ∈ torun) :
+    (runHistory t (s0, []) (h ++ [.check torun])).2.lookup n =
+      (checkCall t (runHistory t (s0, []) h).1 [] torun).lookup n := by
+  rw [runHistory_append]
+  exact check_independent_of_history t _ _ _ torun n hdef hn
+
+/-- the results of the selected checks, in selection order -/
+def selectedResults (store : List (α × Result)) (torun : List α) : List Result := torun.filterMap (fun n => store.lookup n)
+
+/-- the verdict (Error level and Python flag) and the recorded failures of a call, over the checks it selects, depend only on
+    the object state at that call and on the selection -/
+theorem verdict_independent_of_history (t : List (α × (σ → List Op))) (s : σ) (st : List (α × Result)) (torun : List α)
+    (hdef : ∀ m ∈ torun, (t.lookup m).isSome) :
+    selectedResults (checkCall t s st torun) torun = selectedResults (checkCall t s [] torun) torun ∧
+    passes (selectedResults (checkCall t s st torun) torun) = passes (selectedResults (checkCall t s [] torun) torun) ∧
+    failures (selectedResults (checkCall t s st torun) torun) = failures (selectedResults (checkCall t s [] torun) torun) := by
+  have e : selectedResults (checkCall t s st torun) torun = selectedResults (checkCall t s [] torun) torun := by
+    unfold selectedResults
+    apply List.filterMap_congr
+    intro n hn
+    exact check_independent_of_history t s st [] torun n hdef hn
+  exact ⟨e, by rw [e], by rw [e]⟩
+
+/-- every key of the store names a method of the class, after any history that starts with an empty store -/
+theorem history_keys (t : List (α × (σ → List Op))) (st : σ × List (α × Result)) (h : List (Event α σ))
+    (hinv : ∀ n, (st.2.lookup n).isSome → (t.lookup n).isSome)
+    (hdef : ∀ e ∈ h, ∀ torun, e = .check torun → ∀ m ∈ torun, (t.lookup m).isSome) :
+    ∀ n, ((runHistory t st h).2.lookup n).isSome → (t.lookup n).isSome := by
+  induction h generalizing st with
+  | nil => exact hinv
+  | cons e r ih =>
+    have hr : ∀ e' ∈ r, ∀ torun, e' = .check torun → ∀ m ∈ torun, (t.lookup m).isSome :=
+      fun e' he' => hdef e' (List.mem_cons_of_mem _ he')
+    show ∀ n, ((runHistory t (runEvent t st e) r).2.lookup n).isSome → _
+    apply ih _ _ hr
+    cases e with
+    | change f => exact hinv
+    | check torun =>
+      intro n hn
+      have hd := hdef (.check torun) List.mem_cons_self torun rfl
+      simp only [runEvent] at hn
+      rw [lookup_checkCall _ _ _ _ _ hd] at hn
+      by_cases hm : n ∈ torun
+      · exact hd n hm
+      · simp only [hm, if_false] at hn; exact hinv n hn
+
+/-- a full `check()` (every method selected) after ANY history leaves exactly the store of a new checker on the current state -/
+theorem full_check_after_history_eq_fresh (t : List (α × (σ → List Op))) (s0 : σ) (h : List (Event α σ)) (torun : List α)
+    (hdefh : ∀ e ∈ h, ∀ tr, e = .check tr → ∀ m ∈ tr, (t.lookup m).isSome)
+    (hdef : ∀ m ∈ torun, (t.lookup m).isSome) (hall : ∀ n, (t.lookup n).isSome → n ∈ torun) (n : α) :
+    (runHistory t (s0, []) (h ++ [.check torun])).2.lookup n =
+      (checkCall t (runHistory t (s0, []) h).1 [] torun).lookup n := by
+  rw [runHistory_append]
+  show (checkCall t _ _ torun).lookup n = _
+  rw [lookup_checkCall _ _ _ _ _ hdef, lookup_checkCall _ _ _ _ _ hdef]
+  by_cases hn : n ∈ torun
+  · simp [hn]
+  · simp only [hn, if_false, List.lookup]
+    cases hl : (runHistory t (s0, []) h).2.lookup n with
+    | none => rfl
+    | some v =>
+      have := history_keys t (s0, []) h (by intro n hn; simp [List.lookup] at hn) hdefh n (by simp [hl])
+      exact absurd (hall n this) hn
+
+/-- everything the selection resolves to is a method of the class (so the hypotheses `hdef` above hold for real calls) -/
+theorem resolve_defined {β : Type} (names : List α) (req : Option (List β)) (m : β → α → Bool) (ign : α → Bool) (l : List α)
+    (h : resolve names req m ign = some l) : ∀ x ∈ l, x ∈ names := by
+  unfold resolve at h
+  cases req with
+  | none =>
+    simp only [Option.map_some, Option.some.injEq] at h
+    subst h
+    intro x hx; exact (List.mem_filter.1 hx).1
+  | some rs =>
+    simp only at h
+    split at h
+    · simp at h
+    · simp only [Option.map_some, Option.some.injEq] at h
+      subst h
+      intro x hx
+      have hx' := (List.mem_filter.1 hx).1
+      simp only [List.mem_flatten, List.mem_map] at hx'
+      obtain ⟨l', ⟨r, _, rfl⟩, hxl⟩ := hx'
+      exact (List.mem_filter.1 hxl).1
+
+end History
+
+-- the seeded variant "skip a check that already has a stored result" returns the first verdict for ever: after the object
+-- changed (`true` -> `false`) the second call still holds the result of the first, the code as it is re-runs the check
+example :
+    let t : List (Nat × (Bool → List Op)) := [(0, fun ok => [.need ok])]
+    (checkCallSkipStored t false (checkCall t true [] [0]) [0]).lookup 0 = some (runCheck [.need true]) ∧
+    (checkCall t false (checkCall t true [] [0]) [0]).lookup 0 = some (runCheck [.need false]) := by decide
+
+/-! ## per-channel checks: /Data/Channel entries and /Channel/Parameters nodes are associated by Identifier -/
+
+section Channels
+variable {α β : Type} [DecidableEq α]
+
+theorem lookupParam_eq_some_iff (params : List (α × β)) (hn : (params.map (·.1)).Nodup) (id : α) (b : β) :
+    lookupParam params id = some b ↔ (id, b) ∈ params := by
+  induction params with
+  | nil => simp [lookupParam]
+  | cons p r ih =>
+    obtain ⟨k, v⟩ := p
+    simp only [List.map_cons, List.nodup_cons] at hn
+    by_cases hk : k = id
+    · subst hk
+      have : lookupParam ((k, v) :: r) k = some v := by simp [lookupParam, List.find?]
+      rw [this]
+      constructor
+      · intro h; simp only [Option.some.injEq] at h; subst h; exact List.mem_cons_self
+      · intro h
+        rcases List.mem_cons.1 h with h | h
+        · simp only [Prod.mk.injEq] at h; rw [h.2]
+        · exact absurd (List.mem_map.2 ⟨(k, b), h, rfl⟩) hn.1
+    · have hne : ((k, v).1 == id) = false := by simp [hk]
+      have : lookupParam ((k, v) :: r) id = lookupParam r id := by simp [lookupParam, List.find?, hne]
+      rw [this, ih hn.2]
+      constructor
+      · exact fun h => List.mem_cons_of_mem _ h
+      · intro h
+        rcases List.mem_cons.1 h with h | h
+        · simp only [Prod.mk.injEq] at h; exact absurd h.1.symm hk
+        · exact h
+
+/-- **the order of the Parameters nodes does not matter** (identifiers unique — the rule `check_identifier_uniqueness`) -/
+theorem lookupParam_perm (params params' : List (α × β)) (hp : params.Perm params') (hn : (params.map (·.1)).Nodup) (id : α) :
+    lookupParam params id = lookupParam params' id := by
+  have hn' : (params'.map (·.1)).Nodup := (hp.map _).nodup_iff.1 hn
+  apply Option.ext
+  intro b
+  rw [lookupParam_eq_some_iff _ hn, lookupParam_eq_some_iff _ hn']
+  exact hp.mem_iff
+
+theorem perChannel_perm_params (verdict : α → β → Bool) (dataIds : List α) (params params' : List (α × β))
+    (hp : params.Perm params') (hn : (params.map (·.1)).Nodup) :
+    perChannel verdict dataIds params = perChannel verdict dataIds params' := by
+  unfold perChannel
+  apply List.map_congr_left
+  intro id _
+  rw [lookupParam_perm params params' hp hn id]
+
+/-- **the order of the /Data/Channel entries does not matter**: the per-channel verdicts are the same ones, in the new order -/
+theorem perChannel_perm_data (verdict : α → β → Bool) (dataIds dataIds' : List α) (params : List (α × β))
+    (hd : dataIds.Perm dataIds') :
+    (perChannel verdict dataIds params).Perm (perChannel verdict dataIds' params) := hd.map _
+
+/-- the overall verdict is invariant under independent permutations of the two lists -/
+theorem allChannelsPass_perm (verdict : α → β → Bool) (dataIds dataIds' : List α) (params params' : List (α × β))
+    (hd : dataIds.Perm dataIds') (hp : params.Perm params') (hn : (params.map (·.1)).Nodup) :
+    allChannelsPass verdict dataIds params = allChannelsPass verdict dataIds' params' := by
+  unfold allChannelsPass
+  rw [perChannel_perm_params verdict dataIds params params' hp hn]
+  exact (perChannel_perm_data verdict dataIds dataIds' params' hd).all_eq
+
+/-- `cphd_channel_params_ids_swapped`: two Parameters nodes carrying each other's Identifier — each channel is judged against
+    the other channel's parameters -/
+theorem mutation_identifiers_swapped (verdict : α → β → Bool) (a b : α) (pa pb : β) (h : a ≠ b) :
+    perChannel verdict [a, b] [(b, pa), (a, pb)] = [(a, some (verdict a pb)), (b, some (verdict b pa))] := by
+  have h1 : (b == a) = false := by simp [Ne.symm h]
+  simp [perChannel, lookupParam, List.find?, h1]
+
+/-- the seeded variant (pairing by position) does not see the swap, and misjudges a file whose two lists are in different order -/
+theorem position_pairing_differs (verdict : α → β → Bool) (a b : α) (pa pb : β) (h : a ≠ b) :
+    perChannelByPosition verdict [a, b] [(b, pa), (a, pb)] = [(a, some (verdict a pa)), (b, some (verdict b pb))] ∧
+    perChannel verdict [b, a] [(a, pa), (b, pb)] = [(b, some (verdict b pb)), (a, some (verdict a pa))] ∧
+    perChannelByPosition verdict [b, a] [(a, pa), (b, pb)] = [(b, some (verdict b pa)), (a, some (verdict a pb))] := by
+  have h1 : (a == b) = false := by simp [h]
+  simp [perChannelByPosition, perChannel, lookupParam, List.find?, h1]
+
+end Channels
+
+example : allChannelsPass (fun (id : Nat) (fxc : Nat) => id == fxc) [2, 1] [(1, 1), (2, 2)] = true ∧
+    allChannelsPass (fun (id : Nat) (fxc : Nat) => id == fxc) [1, 2] [(2, 1), (1, 2)] = false := by decide
+
 /-! ## satisfiable examples -/
 
 example : sicdScan [.other, .otherXml, .sicdXml] = some 2 ∧ sicdScan [.other, .otherXml] = none ∧
